@@ -104,6 +104,14 @@ def cases(tier, seed):
             out.append({"part": "sched", "clients": 3, "P": 1, "range": [lo, lo + 10]})
     for lo in range(0, 120, 10):
         out.append({"part": "late-dup", "P": 2 if tier == "quick" else 3, "range": [lo, lo + 10]})
+    # responses delivered inside the send call by the requesting thread itself, two requesting threads (no bus lock in
+    # between: the networks are wired by send_message -> notify): two threads are inside Network.notify at once
+    for scope, P, step, top in (("network", 2, 6, 96), ("wide", 1, 40, 1200)):
+        if tier == "thorough" and scope == "wide":
+            P = 2
+            step, top = 8, 1200
+        for lo in range(0, top, step):
+            out.append({"part": "inline-threads", "scope": scope, "P": P, "range": [lo, lo + step]})
     # own-the-nondeterminism cross-check: the same harness with every source line of canopen as a scheduling point
     # (shared state the attribute-level points do not see, e.g. a buffer hoisted to module scope)
     if tier == "quick":
@@ -457,7 +465,80 @@ def run_latedup(case, st):
     st.count("schedules_with_preemption", stats["with_preemption"])
 
 
+def inline_harness(s):
+    import canopen
+    simenv.new_world()
+    a, b = canopen.Network(), canopen.Network()
+    # each network's outgoing frames are handed to the other network in the sending thread
+    a.send_message = lambda cid, data, remote=False: b.notify(cid, bytearray(data), 0.0)
+    b.send_message = lambda cid, data, remote=False: a.notify(cid, bytearray(data), 0.0)
+    o, idx = od()
+    remote = {n: a.add_node(n, o) for n in (5, 6)}
+    local = {n: b.create_node(n, o) for n in (5, 6)}
+    local[5].sdo["T_UNSIGNED32"].raw = 0x55555555
+    local[6].sdo["T_UNSIGNED32"].raw = 0x66666666
+    res = {}
+
+    def one():
+        try:
+            res[5] = [remote[5].sdo["T_UNSIGNED32"].raw]
+        except Exception as e:  # noqa: BLE001
+            res[5] = "EXC " + type(e).__name__ + ": " + str(e)[:60]
+
+    def two():
+        try:
+            r1 = remote[6].sdo["T_UNSIGNED32"].raw
+            remote[6].sdo["T_UNSIGNED16"].raw = 0x6666
+            res[6] = [r1, remote[6].sdo["T_UNSIGNED16"].raw, local[6].sdo["T_UNSIGNED16"].raw]
+        except Exception as e:  # noqa: BLE001
+            res[6] = "EXC " + type(e).__name__ + ": " + str(e)[:60]
+    s.spawn(one, "client5")
+    s.spawn(two, "client6")
+    return lambda: (res.get(5), res.get(6), s.deadlock)
+
+
+def run_inline_threads(case, st):
+    import os
+    import canopen
+    root = os.path.dirname(os.path.abspath(canopen.__file__))
+    root = (os.path.join(root, "network.py"),) if case["scope"] == "network" else \
+        tuple(os.path.join(root, x) for x in ("sdo", "network.py", "node"))
+
+    def on_exec(s, out):
+        r5, r6, deadlock = out
+        st.evaluations += 1
+        st.traces += 1
+        st.transitions += len(s.trace)
+        if s.pre:
+            st.nontrivial_n += 1
+        rc = dict(case, schedule=[t[1] for t in s.trace])
+        if deadlock:
+            st.violation("C03:inline-threads:deadlock", rc, "no deadlock", deadlock)
+        elif s.hit_horizon:
+            st.caps.append("schedule horizon hit")
+        elif r5 != [0x55555555] or r6 != [0x66666666, 0x6666, 0x6666]:
+            bad = "exception" if isinstance(r5, str) or isinstance(r6, str) else "wrong-data"
+            st.violation(f"C03:inline-threads:{bad}", rc, "each client reads its own node's values", [r5, r6])
+        else:
+            st.outcome("inline threads ok")
+
+    if "schedule" in case:
+        s = vsched.Scheduler(case["schedule"], horizon=200000, line_root=root)
+        result = inline_harness(s)
+        s.run()
+        on_exec(s, result())
+        return
+    stats = vsched.explore_schedules(inline_harness, case["P"], on_exec=on_exec, horizon=200000,
+                                     first_dev_range=tuple(case["range"]), line_root=root)
+    st.states += stats["executions"]
+    st.count("inline_thread_schedules", stats["executions"])
+    st.count("schedules_with_preemption", stats["with_preemption"])
+    st.counters["inline_max_points:" + case["scope"]] = max(st.counters.get("inline_max_points:" + case["scope"], 0), stats["max_points"])
+
+
 def run_case(case, st):
+    if case["part"] == "inline-threads":
+        return run_inline_threads(case, st)
     {"ints": run_ints, "other": run_other, "strings": run_strings, "access": run_access, "sched": run_sched,
      "late-dup": run_latedup}[case["part"]](case, st)
 
